@@ -3,7 +3,7 @@ COMMON_ASSUMPTIONS = [
     "executions are sequentially consistent at hook/lock granularity: compiler/CPU reorderings and preemption between two statements with no hook between them are not explored",
     "the PTHREAD build is simulated everywhere; the OpenMP build (-D__OPENMP -fopenmp, PLAT=_OPENMP) runs in the batches of flavour 'omp', where the five libgomp entry points the library uses (GOMP_parallel, GOMP_critical_name_start/end, omp_get_thread_num/num_threads) are provided by the simulator: the team is made of simulated tasks, each named critical section is a simulated mutex; libgomp itself is not linked. Solaris, DEC, SGI, Cray variants are not simulated",
     "built-in BLAS kernels (CBLAS/ and ?myblas2.c from the repository) except in the batches of flavour 'vblas' (-DUSE_VENDOR_BLAS, system OpenBLAS forced to one thread; OpenBLAS itself is trusted)",
-    "32-bit indices except in the batches of flavour 'long' (-D_LONGINT) listed under coverage.seeds",
+    "32-bit indices except in the batches of flavour 'long' (-D_LONGINT) and 'lasan' (-D_LONGINT under ASan) listed under coverage.seeds",
     "seeded sampling, not enumeration: a clean batch is evidence, not proof",
     "libc, the allocator and the long-double reference oracles are trusted",
 ]
@@ -26,7 +26,7 @@ FOREST_RULE = '; the `forest` batch is an enumerating profile: configuration (se
 
 CHECKS = {
  'C01': dict(seed_offset=1, level='exploration', rule=RULE_A, props=['C01'],
-             batches=[dict(profile='ssv', flavour='plain', quick=60000, thorough=3000000), dict(profile='ssv', flavour='asan', quick=4000, thorough=150000), dict(profile='ssv', flavour='long', quick=8000, thorough=400000), dict(profile='ssv', flavour='vblas', quick=8000, thorough=400000), dict(profile='ssv', flavour='omp', quick=10000, thorough=500000)],
+             batches=[dict(profile='ssv', flavour='plain', quick=60000, thorough=3000000), dict(profile='ssv', flavour='asan', quick=4000, thorough=150000), dict(profile='ssv', flavour='long', quick=8000, thorough=400000), dict(profile='ssv', flavour='vblas', quick=8000, thorough=400000), dict(profile='ssv', flavour='omp', quick=10000, thorough=500000), dict(profile='ssv', flavour='lasan', quick=3000, thorough=100000)],
              must_probe=['solves_checked', 'spin_blocks', 'numbering_ne_storage_order', 'nprocs_gt_n']),
  'C02': dict(seed_offset=2, level='exploration', rule=RULE_A + TINY_RULE, props=['C02'],
              batches=[dict(profile='strf', flavour='plain', quick=60000, thorough=3000000), dict(profile='strf', flavour='asan', quick=4000, thorough=150000), dict(profile='strf', flavour='long', quick=8000, thorough=400000), dict(profile='strf', flavour='vblas', quick=8000, thorough=400000), dict(profile='strf', flavour='omp', quick=10000, thorough=500000), dict(profile='tiny', flavour='plain', quick=530 * 8, thorough=66066 * 32, S=8, S_thorough=32)],
@@ -41,7 +41,7 @@ CHECKS = {
  'C05': dict(seed_offset=5, level='exploration', rule=RULE_A + TINY_RULE, props=['C05'],
              batches=[dict(profile='mem', flavour='asan', quick=8000, thorough=300000), dict(profile='mem', flavour='plain', quick=40000, thorough=2000000),
                       dict(profile='sym', flavour='plain', quick=16000, thorough=800000), dict(profile='sym', flavour='asan', quick=2000, thorough=80000),
-                      dict(profile='mem', flavour='long', quick=8000, thorough=400000), dict(profile='tiny', flavour='asan', quick=530 * 8, thorough=66066 * 8, S=8, S_thorough=8)],
+                      dict(profile='mem', flavour='long', quick=8000, thorough=400000), dict(profile='mem', flavour='lasan', quick=4000, thorough=150000), dict(profile='tiny', flavour='asan', quick=530 * 8, thorough=66066 * 8, S=8, S_thorough=8)],
              must_probe=['lusup_allocs_checked', 'dyn_slots', 'abort_storage_exceeded']),
  'C06': dict(seed_offset=6, level='exploration', rule=RULE_A + TINY_RULE, props=['C06', 'C05'],
              batches=[dict(profile='sing', flavour='plain', quick=50000, thorough=2500000), dict(profile='sing', flavour='asan', quick=5000, thorough=200000), dict(profile='tiny', flavour='plain', quick=530 * 8, thorough=66066 * 32, S=8, S_thorough=32)],
